@@ -320,7 +320,7 @@ from cxxheaderparser.simple import parse_file
 from cxxheaderparser.options import ParserOptions
 from cxxheaderparser import preprocessor as pp
 
-def e2e(backend, main_rel, inc_rel, use_subdir_include_path=False, retain=False, depfile=False, sysinc=False):
+def e2e(backend, main_rel, inc_rel, use_subdir_include_path=False, retain=False, depfile=False, sysinc=False, incpaths=None, deptarget=None):
     """main includes inc; returns (names of variables seen, line of main_after, depfile text or None)"""
     d = tempfile.mkdtemp(prefix="vfc19_")
     try:
@@ -336,7 +336,9 @@ def e2e(backend, main_rel, inc_rel, use_subdir_include_path=False, retain=False,
         kw = dict(retain_all_content=retain)
         dep = os.path.join(d, "out.d")
         if depfile:
-            kw.update(depfile=pathlib.Path(dep), deptarget=["tgt.o"])
+            kw.update(depfile=pathlib.Path(dep), deptarget=list(deptarget or ["tgt.o"]))
+        if incpaths is not None:
+            kw.update(include_paths=[(d if p_ == "<root>" else p_) for p_ in incpaths])
         if backend == "gcc":
             fn = pp.make_gcc_preprocessor(print_cmd=False, **kw)
         else:
@@ -371,9 +373,9 @@ def e2e(*a, **kw):
     return _ns["e2e"](*a, **kw)
 
 
-def e2e_judge(backend, main_rel, inc_rel):
+def e2e_judge(backend, main_rel, inc_rel, incpaths=None):
     """returns None or description of a violation"""
-    names, lines, _ = e2e(backend, main_rel, inc_rel)
+    names, lines, _ = e2e(backend, main_rel, inc_rel, incpaths=incpaths)
     if "from_inc" in names:
         return f"{backend}: declaration of the included file {inc_rel!r} reported for main {main_rel!r}: {names}"
     if names != ["main_before", "from_macro", "main_after"]:
@@ -504,6 +506,22 @@ def run(tier):
                 rel = "suffix" if inc_rel.endswith(main_rel) else "other"
                 body = ("from vf.props import c19\n" f"bad = c19.e2e_judge({backend!r}, {main_rel!r}, {inc_rel!r})\nprint(bad)\nsys.exit(1 if bad else 0)\n")
                 ck.violation(bad, ck.write_replay(body), key=dict(kind="e2e", backend=backend, relation=rel))
+        # the main file named by a relative path that also lies below an include path
+        for incpaths in (["."], ["<root>"], [".", "<root>"]):
+            bad = e2e_judge(backend, "main.h", "sub/inc.h", incpaths=incpaths)
+            n_e2e += 1
+            ck.traces += 2
+            if bad:
+                body = ("from vf.props import c19\n" f"bad = c19.e2e_judge({backend!r}, 'main.h', 'sub/inc.h', incpaths={incpaths!r})\nprint(bad)\nsys.exit(1 if bad else 0)\n")
+                ck.violation(f"{bad} [include paths {incpaths}]", ck.write_replay(body), key=dict(kind="e2e", backend=backend, relation="include-path"))
+        # depfile targets are written so that Make reads them back as given
+        tgts = ["my project/w.o", "st$1"]
+        _, _, dt = e2e(backend, "main.h", "inc.h", depfile=True, deptarget=tgts)
+        n_e2e += 1
+        if dt is None or not dt.lstrip().startswith("my\\ project/w.o st$$1:"):
+            body = ("from vf.props import c19\n" f"_, _, dt = c19.e2e({backend!r}, 'main.h', 'inc.h', depfile=True, deptarget={tgts!r})\nprint(repr(dt))\n"
+                    "sys.exit(0 if dt and dt.lstrip().startswith('my\\\\ project/w.o st$$1:') else 1)\n")
+            ck.violation(f"{backend}: depfile targets {tgts} are not written in Make's quoting: {dt!r}", ck.write_replay(body), key=dict(kind="e2e-depfile-target", backend=backend))
         # depfile end to end
         sysinc = backend == "gcc"  # pcpp does not resolve system headers (passes the include through)
         names, lines, deptext = e2e(backend, "main.h", "inc dir/o ther.h", depfile=True, sysinc=sysinc)
